@@ -31,6 +31,11 @@
 
 
 #include "controller.h"
+#ifdef KAUZLARI_SYMPLER_VERIF
+#include "verif_observer.h"
+#include "particle_cache.h"
+#include "val_calculator.h"
+#endif
 
 #include "function.h"
 #include "simulation.h"
@@ -365,6 +370,10 @@ void Controller::run() {
   // Controller::time_for_parallel = 0;
   // Controller::time_for_parallel1 = 0;
   // Controller::time_for_parallel2 = 0;
+#ifdef KAUZLARI_SYMPLER_VERIF
+  VerifObserver::dumpInitial(M_SIMULATION);
+#endif
+
   /* --- MAIN LOOP -------------------------------------------------------------------------- */
 
   for(int current = 0; current < m_timesteps; current++) {
@@ -738,6 +747,10 @@ void Controller::runSymbols() {
 	      
 	      __begin = Particle::s_cached_properties[col][stage].begin();
 	      __end = Particle::s_cached_properties[col][stage].end();
+#ifdef KAUZLARI_SYMPLER_VERIF
+	      for (vector<ParticleCache*>::iterator pc = __begin; pc != __end; ++pc)
+		VerifObserver::traceSymbol("pc", stage, (*pc)->className(), (*pc)->mySymbolName());
+#endif
 	      
 	      FOR_EACH_FREE_PARTICLE_C
 		(
@@ -834,6 +847,10 @@ void Controller::runSymbols() {
 	 /* Run all calculators for non-bonded pairs in current stage. */
 
 	 if (cp->maxStage() >= stage) {
+#ifdef KAUZLARI_SYMPLER_VERIF
+	   for (vector<ValCalculator*>::iterator vcIt = cp->valCalculators(stage).begin(); vcIt != cp->valCalculators(stage).end(); ++vcIt)
+	     VerifObserver::traceSymbol("vc", stage, (*vcIt)->className(), (*vcIt)->mySymbolName());
+#endif
 	 
 	   FOR_EACH_PAIR__PARALLEL
 	     (Controller,
